@@ -219,6 +219,8 @@ def run(ck):
     if disc == 0 or zero == 0 or multi == 0:
         raise MachineryError("vacuity: no discriminating / zero-gradient / multi-row case")
     from harness import extras2
+    # Apalache: the orthogonality law holds for tensors of up to four entries with ARBITRARY integer values (AdvUpdateInd.tla)
+    extras2.apalache(ck, "AdvUpdateInd", "Init", "Orthogonal", 0, "unbounded entries: nn * (g + alpha * gA) is orthogonal to gA")
     extras2.backend(ck)      # specification growth (refinement tier only): backend selection rules
     ck.assumptions += ["the TensorFlow engine cannot be executed here (tensorflow is not installed): only the PyTorch engine is covered",
                        "float32 parameters compared at 2e-5 (relative to max(1, |expected|))", "gA = 0 => g = gP is the reading of 'projection on a zero gradient'"]
